@@ -91,3 +91,12 @@ CHECKS["C14"] = dict(
     thorough=dict(shards=16, checks=130, timeout=3000),
     assumptions=_LEDGER_ASSUME + ["a well-formed/malformed verdict on a corrupted stream is recomputed by the harness from the statement's list; a parent-closed prefix of a stream is a smaller well-formed ledger"],
 )
+
+CHECKS["C16"] = dict(
+    test="TestC16", level="exploration",
+    common=dict(shrinktime="20s", env={"GOMEMLIMIT": "3GiB"}),
+    quick=dict(shards=8, checks=70, timeout=900),
+    thorough=dict(shards=16, checks=140, timeout=3000),
+    assumptions=["three quarters of the worlds use a non-throttling flashback stub so sequences reach deeper; a throttling answer is always acceptable",
+                 "challenge expiry is not advanced (wall clock); concurrent duplicates are sampled"],
+)
